@@ -304,6 +304,29 @@ func (r *Runner) monTA(s *Step, rep *Reply) {
 	for i := range snap.Pools {
 		poolByName[snap.Pools[i].Name] = &snap.Pools[i]
 	}
+	// conservation of each pool's CPU supply: what is free is part of the supply it is free in, and a CPU of the
+	// supply that is not free is held exclusively by some grant (the capacity clause counts "CPUs remaining in the
+	// pool's shared set": that set must consist of the pool's sharable CPUs, all of them unless granted away)
+	heldExcl := IntSet{}
+	for _, g := range snap.Grants {
+		heldExcl = heldExcl.Union(SetOf(g.Exclusive))
+	}
+	for i := range snap.Pools {
+		pl := &snap.Pools[i]
+		fs, fi := SetOf(pl.FreeSharable), SetOf(pl.FreeIsolated)
+		if x := fs.Minus(SetOf(pl.Sharable)); len(x) > 0 {
+			r.Violate("C03", "supply-integrity", s.Op+":free-sharable-not-in-supply", "after %s: pool %s lists CPUs %s as free sharable CPUs which are not part of its sharable supply %s", s.Op, pl.Name, x, SetOf(pl.Sharable))
+		}
+		if x := fi.Minus(SetOf(pl.Isolated)); len(x) > 0 {
+			r.Violate("C03", "supply-integrity", s.Op+":free-isolated-not-in-supply", "after %s: pool %s lists CPUs %s as free isolated CPUs which are not part of its isolated supply %s", s.Op, pl.Name, x, SetOf(pl.Isolated))
+		}
+		if x := SetOf(pl.Sharable).Minus(fs).Minus(heldExcl); len(x) > 0 {
+			r.Violate("C03", "supply-integrity", s.Op+":sharable-cpu-lost", "after %s: CPUs %s of the sharable supply of pool %s are neither free nor held exclusively by any grant", s.Op, x, pl.Name)
+		}
+		if x := SetOf(pl.Isolated).Minus(fi).Minus(heldExcl); len(x) > 0 {
+			r.Violate("C03", "supply-integrity", s.Op+":isolated-cpu-lost", "after %s: CPUs %s of the isolated supply of pool %s are neither free nor held exclusively by any grant", s.Op, x, pl.Name)
+		}
+	}
 	tight := false
 	for i := range snap.Pools {
 		pl := &snap.Pools[i]
